@@ -443,12 +443,88 @@ func stressCase(idx int64, r *rand.Rand) {
 	}
 }
 
+// releaseAtPoint: every unit is held; one caller arrives and, at a schedule point of its way into the backlog (verif
+// points before / after the push; random pools: the subscribe helper before it takes the lock), the last holder to
+// matter completes in another goroutine.  Whatever the overlap, the caller is served by that release: at quiescence
+// it holds the unit.
+func releaseAtPoint(t *testing.T, idx int64, r *rand.Rand) {
+	c := genCfg(r)
+	c.Callers, c.Backlog, c.Timeout, c.Yields, c.SmallWin = c.Limit+1, 1+r.IntN(3), time.Hour, 0, false
+	points := []string{"queue.before_push", "queue.after_push"}
+	if c.Ordering == "random" {
+		points = []string{"blocking.helper_before_lock"}
+		c.Timeout = 0
+	}
+	point := points[r.IntN(len(points))]
+	yields := []int{200, 2000, 20000}[r.IntN(3)]
+	var served, returned bool
+	rt.Scenario(fmt.Sprintf("C19/%s-%s/release@%s", c.Pool, c.Ordering, point), idx, c)
+	defer rt.ScenarioDone()
+	bubble(t, func(t *testing.T) {
+		p := build(c)
+		var held []core.Listener
+		for i := 0; i < c.Limit; i++ {
+			l, ok := p.Acquire(context.Background())
+			if !ok {
+				panic("c19: unit refused")
+			}
+			held = append(held, l)
+		}
+		var armed, fired atomic.Bool
+		limiter.SetVerifHook(func(name string) {
+			if name == point && armed.Load() && fired.CompareAndSwap(false, true) {
+				var done atomic.Bool
+				go func() { held[0].OnSuccess(); done.Store(true) }()
+				for i := 0; i < yields && !done.Load(); i++ {
+					runtime.Gosched()
+				}
+			}
+		})
+		defer limiter.SetVerifHook(nil)
+		armed.Store(true)
+		var l core.Listener
+		var ok bool
+		var done atomic.Bool
+		go func() { l, ok = p.Acquire(context.Background()); done.Store(true) }()
+		synctest.Wait()
+		armed.Store(false)
+		if !fired.Load() { // point not on this path (it is, for every pool kind): release the plain way
+			held[0].OnSuccess()
+			synctest.Wait()
+		}
+		returned, served = done.Load(), done.Load() && ok && l != nil
+		// clean up: complete everything (a stranded caller is served by the next release)
+		for _, h := range held[1:] {
+			h.OnSuccess()
+		}
+		synctest.Wait()
+		if done.Load() && ok && l != nil {
+			l.OnSuccess()
+		}
+		synctest.Wait()
+		if c.Ordering == "random" {
+			if l2, ok2 := p.Acquire(context.Background()); ok2 {
+				l2.OnIgnore()
+			}
+			synctest.Wait()
+		}
+	})
+	rt.Count("release_at_point_cases/"+point, 1)
+	if !served {
+		rt.Violation(fmt.Sprintf("C19/%s-%s/caller-not-served-by-a-release-landing-at-%s", c.Pool, c.Ordering, point), idx, rt.J{"config": c, "acquire_returned": returned, "pause_yields": yields})
+		return
+	}
+	rt.Distinct(fmt.Sprintf("rap|%s|%s|%d|%s|%d", c.Pool, c.Ordering, c.Limit, point, yields))
+}
+
 func TestCheck(t *testing.T) {
 	rt.Cases(1650, 1320000, func(idx int64) {
 		r := rt.CaseRand(19, idx)
 		rt.Case()
 		if idx%55 == 54 {
 			stressCase(idx, r)
+		} else if idx%11 == 7 {
+			releaseAtPoint(t, idx, r)
 		} else {
 			virtualCase(t, idx, r)
 		}
